@@ -95,7 +95,48 @@ void h_valid_%(S)s(void)
   VACUITY_PROBE();
 }
 '''
-POST = HARNESS_T % dict(T='int', S='int') + HARNESS_T % dict(T='char', S='char')
+FIELD_T = r'''
+/* Field<%(T)s, tag>::get_rlm_idx() / is_valid(): the field's own value is looked up in the field's realm (or -1 / true without a realm) */
+void h_field_%(S)s(void)
+{
+  long n = nondet_long(); __CPROVER_assume(1 <= n && n <= NMAX);
+  %(T)s *tab = malloc((unsigned long)n * sizeof(%(T)s)); __CPROVER_assume(tab != 0);
+  struct FIX8_RealmBase rb; rb._dtype = E_FIX8_RealmBase_RealmType_dt_set; rb._range = tab; rb._sz = (int)n;
+  struct %(FS)s f; _Bool has = nondet_bool(); f.__base._rlm = has ? &rb : 0;
+  long w = nondet_long(); __CPROVER_assume(0 <= w && w < n); g_w_%(S)s = w;
+  int idx = field_%(S)s_get_rlm_idx(&f);
+  __CPROVER_assert(has || idx == -1, "C10.field.%(S)s.no_realm_no_index");
+  __CPROVER_assert(!has || (idx >= -1 && idx < rb._sz), "C10.field.%(S)s.idx_in_bounds");
+  __CPROVER_assert(!has || idx < 0 || tab[idx] == f._value, "C10.field.%(S)s.idx_describes_own_value");
+  __CPROVER_assert(!has || tab[w] != f._value || idx == w, "C10.field.%(S)s.member_gets_its_index");
+  _Bool ok = field_%(S)s_is_valid(&f);
+  __CPROVER_assert(has || ok, "C10.field.%(S)s.no_realm_is_valid");
+  __CPROVER_assert(!has || !ok || (0 <= g_lb_k_%(S)s && g_lb_k_%(S)s < n && tab[g_lb_k_%(S)s] == f._value), "C10.field.%(S)s.valid_is_member");
+  __CPROVER_assert(!has || ok || tab[w] != f._value, "C10.field.%(S)s.member_is_valid");
+  VACUITY_PROBE();
+}
+'''
+FIELD_BOOL = r'''
+/* Field<Boolean, tag>::get_rlm_idx(): the wire character of the value ('Y' / 'N') is looked up in the field's realm */
+void h_field_bool(void)
+{
+  long n = nondet_long(); __CPROVER_assume(1 <= n && n <= NMAX);
+  char *tab = malloc((unsigned long)n); __CPROVER_assume(tab != 0);
+  struct FIX8_RealmBase rb; rb._dtype = E_FIX8_RealmBase_RealmType_dt_set; rb._range = tab; rb._sz = (int)n;
+  struct FIX8_Field_FIX8_Boolean_43 f; _Bool has = nondet_bool(); f.__base._rlm = has ? &rb : 0;
+  _Bool v = nondet_bool(); f._value = v;
+  long w = nondet_long(); __CPROVER_assume(0 <= w && w < n); g_w_char = w;
+  char wire = v ? 'Y' : 'N';
+  int idx = field_bool_get_rlm_idx(&f);
+  __CPROVER_assert(has || idx == -1, "C10.field.bool.no_realm_no_index");
+  __CPROVER_assert(!has || (idx >= -1 && idx < rb._sz), "C10.field.bool.idx_in_bounds");
+  __CPROVER_assert(!has || idx < 0 || tab[idx] == wire, "C10.field.bool.idx_describes_own_value");
+  __CPROVER_assert(!has || tab[w] != wire || idx == w, "C10.field.bool.member_gets_its_index");
+  VACUITY_PROBE();
+}
+'''
+POST = (HARNESS_T % dict(T='int', S='int') + HARNESS_T % dict(T='char', S='char')
+        + FIELD_T % dict(T='int', S='int', FS='FIX8_Field_int_34') + FIELD_T % dict(T='char', S='char', FS='FIX8_Field_char_54') + FIELD_BOOL)
 
 SIG_LB = 'const %(T)s *(const %(T)s *, const %(T)s *, const %(T)s &)'
 SIG_BS = 'bool (const %(T)s *, const %(T)s *, const %(T)s &)'
@@ -109,6 +150,9 @@ def _proofs():
             dict(name='idx_range_' + S, harness='h_idx_range_' + S, properties=['C10'], solvers=['cadical', 'z3'], timeout=dict(quick=300, thorough=900), floor=3),
             dict(name='valid_' + S, harness='h_valid_' + S, properties=['C10'], solvers=['cadical', 'z3'], timeout=dict(quick=300, thorough=900), floor=3),
         ]
+    out += [dict(name='field_int', harness='h_field_int', properties=['C10'], solvers=['cadical', 'z3'], timeout=dict(quick=300, thorough=900), floor=7),
+            dict(name='field_char', harness='h_field_char', properties=['C10'], solvers=['cadical', 'z3'], timeout=dict(quick=300, thorough=900), floor=7),
+            dict(name='field_bool', harness='h_field_bool', properties=['C10'], solvers=['cadical', 'z3'], timeout=dict(quick=300, thorough=900), floor=4)]
     return out
 
 
@@ -117,9 +161,14 @@ UNIT = dict(
     tu='tu/core.cpp',
     no_follow=True,
     probe={'E_FIX8_RealmBase_RealmType_dt_range': 'FIX8::RealmBase::dt_range'},
-    emit=dict(calls={'lower_bound|' + SIG_LB % dict(T='int'): 'lower_bound_int', 'lower_bound|' + SIG_LB % dict(T='char'): 'lower_bound_char',
+    emit=dict(calls={'FIX8::RealmBase::get_rlm_idx': lambda em, n, args: dict(c='get_rlm_idx_char' if 'char' in em.tstr(args[0]['type']) else 'get_rlm_idx_int',
+                                                                             sig='int (const %s &) const' % ('char' if 'char' in em.tstr(args[0]['type']) else 'int')),
+                     'FIX8::RealmBase::is_valid': lambda em, n, args: dict(c='is_valid_char' if 'char' in em.tstr(args[0]['type']) else 'is_valid_int',
+                                                                          sig='bool (const %s &) const' % ('char' if 'char' in em.tstr(args[0]['type']) else 'int')),
+                     'lower_bound|' + SIG_LB % dict(T='int'): 'lower_bound_int', 'lower_bound|' + SIG_LB % dict(T='char'): 'lower_bound_char',
                      'binary_search|' + SIG_BS % dict(T='int'): 'binary_search_int', 'binary_search|' + SIG_BS % dict(T='char'): 'binary_search_char'},
-              lazy_structs=[r'FIX8::RealmBase'],
+              lazy_structs=[r'FIX8::RealmBase', r'FIX8::Field<.*>', r'FIX8::BaseField'],
+              bases={'FIX8::Field<int, 34>': 'FIX8::BaseField', 'FIX8::Field<char, 54>': 'FIX8::BaseField', 'FIX8::Field<FIX8::Boolean, 43>': 'FIX8::BaseField', 'FIX8::Field<FIX8::EnumType<FIX8::FieldTrait::ft_Boolean>, 43>': 'FIX8::BaseField'},
               type_map=[(r'FIX8::RealmBase::RealmType', 'unsigned int'), (r'FIX8::FieldTrait::FieldType', 'unsigned int')]),
     prelude=PRELUDE,
     functions=[
@@ -127,6 +176,12 @@ UNIT = dict(
         dict(q='FIX8::RealmBase::get_rlm_idx', sig='int (const char &) const', cname='get_rlm_idx_char'),
         dict(q='FIX8::RealmBase::is_valid', sig='bool (const int &) const', cname='is_valid_int'),
         dict(q='FIX8::RealmBase::is_valid', sig='bool (const char &) const', cname='is_valid_char'),
+        # the per-field wrappers MessageBase::print and the validators go through (one instantiation per value type)
+        dict(q='FIX8::Field::get_rlm_idx', filter='FIX8::Field', mangled='_ZNK4FIX85FieldIiLt34EE11get_rlm_idxEv', cname='field_int_get_rlm_idx'),
+        dict(q='FIX8::Field::is_valid', filter='FIX8::Field', mangled='_ZNK4FIX85FieldIiLt34EE8is_validEv', cname='field_int_is_valid'),
+        dict(q='FIX8::Field::get_rlm_idx', filter='FIX8::Field', mangled='_ZNK4FIX85FieldIcLt54EE11get_rlm_idxEv', cname='field_char_get_rlm_idx'),
+        dict(q='FIX8::Field::is_valid', filter='FIX8::Field', mangled='_ZNK4FIX85FieldIcLt54EE8is_validEv', cname='field_char_is_valid'),
+        dict(q='FIX8::Field::get_rlm_idx', filter='FIX8::Field', mangled='_ZNK4FIX85FieldINS_8EnumTypeILj8EEELt43EE11get_rlm_idxEv', cname='field_bool_get_rlm_idx'),
     ],
     postlude=POST,
     proofs=_proofs(),
